@@ -30,7 +30,7 @@ def invocations(a, img, aux):
         ("debugfs ea_list", dbg("ea_list /d1/plain"), False), ("debugfs icheck", dbg("icheck 100 200 300"), False), ("debugfs ncheck", dbg("ncheck 12 13 14 15"), False),
         ("debugfs rdump", capped(dbg("rdump / %s" % aux)), False), ("debugfs bmap", dbg("bmap /d1/plain 3"), False), ("debugfs lsdel", dbg("lsdel"), False),
         ("dumpe2fs", [T("misc/dumpe2fs"), img], False), ("dumpe2fs -x", [T("misc/dumpe2fs"), "-x", img], False), ("tune2fs -l", [T("misc/tune2fs"), "-l", img], False),
-        ("resize2fs -P", [T("resize/resize2fs"), "-P", img], False), ("e2image -r", [T("misc/e2image"), "-r", img, aux + ".raw"], False),
+        ("resize2fs -P", [T("resize/resize2fs"), "-P", img], False), ("resize2fs -f -P", [T("resize/resize2fs"), "-f", "-P", img], False), ("e2image -r", [T("misc/e2image"), "-r", img, aux + ".raw"], False),
         ("e2image -Q", [T("misc/e2image"), "-Q", img, aux + ".qcow"], False), ("e2freefrag", [T("misc/e2freefrag"), img], False),
     ]
 
